@@ -7,24 +7,39 @@ Open Scope Z_scope.
 
 Definition rep (b n : Z) : list Z := repeat b (Z.to_nat n).
 
-Definition case : Type := (list Z * list (Z * list (list Z)) * list (Z * list (list Z)))%type.
+Inductive case : Type :=
+(* one direction of a run of two real Plexers: recorded bytes (timestamps zeroed),
+   [(wire id, chunks enqueued)], [(wire id, chunks dequeued by the listener on that id)] *)
+| CPlex (bytes : list Z) (sent recvd : list (Z * list (list Z)))
+(* pallas-network2 bearer: segments written by write_segment, the raw bytes it
+   produced, and what read_segment returned over those bytes *)
+| CNet2 (segs : list segment) (bytes : list Z) (back : list (Z * list Z)).
 
 Definition bytes_eqb := list_eqb Z.eqb.
 Definition chunks_eqb := list_eqb bytes_eqb.
+Definition segs_eqb := list_eqb (fun a b : Z * list Z => (fst a =? fst b) && bytes_eqb (snd a) (snd b)).
 
 (* model run: cut the bytes into segments, route them *)
-Definition case_out (c : case) : list (Z * list (list Z)) * outcome unit :=
-  let '(bytes, sent, _) := c in
-  let '(w, fin) := parse bytes in (demux (map fst sent) w, fin).
+Definition case_out (c : case) :=
+  match c with
+  | CPlex bytes sent _ => let '(w, fin) := parse bytes in (demux (map fst sent) w, fin, [])
+  | CNet2 segs _ _ => let '(w, fin) := parse (mux_bytes segs) in ([], fin, w)
+  end.
 
 Definition case_ok (c : case) : bool :=
-  let '(bytes, sent, recvd) := c in
-  let '(w, fin) := parse bytes in
-  match fin with Ok _ => true | _ => false end
-  (* every agent dequeued exactly the model's queue for its id *)
-  && forallb (fun q => chunks_eqb (delivered_to (fst q) w) (snd q)) recvd
-  (* the wire is an interleaving of what the agents enqueued: per id, in order, nothing else *)
-  && forallb (fun q => chunks_eqb (delivered_to (fst q) w) (snd q)) sent
-  && forallb (fun s => existsb (fun q => fst q =? fst s) sent) w
-  (* the muxer wrote exactly the model's frames *)
-  && bytes_eqb (mux_bytes (map (fun s => (0, fst s, snd s)) w)) bytes.
+  match c with
+  | CPlex bytes sent recvd =>
+    let '(w, fin) := parse bytes in
+    match fin with Ok _ => true | _ => false end
+    (* every agent dequeued exactly the model's queue for its id *)
+    && forallb (fun q => chunks_eqb (delivered_to (fst q) w) (snd q)) recvd
+    (* the wire is an interleaving of what the agents enqueued: per id, in order, nothing else *)
+    && forallb (fun q => chunks_eqb (delivered_to (fst q) w) (snd q)) sent
+    && forallb (fun s => existsb (fun q => fst q =? fst s) sent) w
+    (* the muxer wrote exactly the model's frames *)
+    && bytes_eqb (mux_bytes (map (fun s => (0, fst s, snd s)) w)) bytes
+  | CNet2 segs bytes back =>
+    bytes_eqb (mux_bytes segs) bytes &&
+    let '(w, fin) := parse bytes in
+    match fin with Ok _ => true | _ => false end && segs_eqb w back
+  end.
